@@ -278,6 +278,10 @@ def main():
             r = kr['results'][h]
             bounded = h in P.get('kani_bounded', [])
             st = {'SUCCESSFUL': 'discharged', 'FAILED': 'failed'}.get(r['status'], 'missing')
+            if st == 'missing' and h in P.get('kani_optional', []):
+                # harness generated only when the private function it reaches exists on this tree
+                cov.setdefault('kani_skipped', []).append(h)
+                continue
             if st == 'missing':
                 return inconclusive(f'kani harness {h} produced no result')
             entry = {'name': f'kani::{h}', 'backend': 'kani/cbmc' + (' (bounded stand-in)' if bounded else ' (complete)'),
